@@ -783,6 +783,23 @@ pub fn run_type<T: Cat + DecodeAll + DecodeLimit>(ctx: &mut Ctx, stream: &str, n
 				g.budget = o.budget;
 				let v = T::gen(&mut g);
 				sinks_case(ctx, name, &v, &format!("enc4 {} {}", T::ty(8), val_string(&v, false)), g.rng.next());
+				// the helpers that pass the callback form on: `Joiner::and`, `KeyedVec::to_keyed_vec`
+				{
+					use parity_scale_codec::{Joiner, KeyedVec};
+					let key = [0xaau8, 0xbb];
+					let r = catch_unwind(AssertUnwindSafe(|| (key.to_vec().and(&v), v.to_keyed_vec(&key), v.encode())));
+					match r {
+						Ok((j, k, e)) => {
+							ctx.emit("join", name, &format!("join aabb {} {}", T::ty(8), val_string(&v, false)), &format!("{} {}", hex_or_dash(&j), hex_or_dash(&k)));
+							let mut expect = key.to_vec();
+							expect.extend_from_slice(&e);
+							if j != expect || k != expect {
+								ctx.oracle_fail("C07", format!("{}: Joiner::and / to_keyed_vec give {} / {} but key ++ encode() is {}", name, hex_or_dash(&j), hex_or_dash(&k), hex_or_dash(&expect)));
+							}
+						},
+						Err(_) => ctx.oracle_fail("C07", format!("{}: Joiner::and / to_keyed_vec panicked", name)),
+					}
+				}
 			}
 		},
 		"alloc" => {
